@@ -221,15 +221,15 @@ M('udf-fid-tail-block-early', 'fault', ['C04', 'C05', 'C10'], ['SA-SIB.packing.u
   [(PY, "            if offset > self.logical_block_size:\n                current_extent += 1", "            if offset >= self.logical_block_size:\n                current_extent += 1")], 'after')
 M('twin-udf-fid-flipped', 'twin', ['C04', 'C05', 'C10'], [],
   [(PY, "                if offset >= self.logical_block_size:\n                    current_extent += 1", "                if not offset < self.logical_block_size:\n                    current_extent += 1")])
-M('ce-gap-off-by-one', 'fault', ['C04', 'C08'], ['SA-FIT.ce_block'],
+M('ce-gap-off-by-one', 'fault', ['C01', 'C02', 'C04', 'C08'], ['SA-FIT.ce_block'],
   [(RR, "                gapsize = entry.offset - lastend - 1\n", "                gapsize = entry.offset - lastend\n")], 'gapsize')
-M('ce-tail-allows-overflow', 'fault', ['C04', 'C08'], ['SA-FIT.ce_block'],
+M('ce-tail-allows-overflow', 'fault', ['C01', 'C02', 'C04', 'C08'], ['SA-FIT.ce_block'],
   [(RR, "                left = self._max_block_size - lastend - 1\n", "                left = self._max_block_size - lastend\n")], 'left >= length')
-M('ce-placement-overlaps-previous', 'fault', ['C04', 'C08'], ['SA-FIT.ce_block'],
+M('ce-placement-overlaps-previous', 'fault', ['C01', 'C02', 'C04', 'C08'], ['SA-FIT.ce_block'],
   [(RR, "                if gapsize >= length:\n                    # We found a spot for it!\n                    offset = lastend + 1\n", "                if gapsize >= length:\n                    # We found a spot for it!\n                    offset = lastend\n")], 'lower')
-M('ce-track-bound-dropped', 'fault', ['C04', 'C08'], ['SA-FIT.ce_block'],
+M('ce-track-bound-dropped', 'fault', ['C01', 'C02', 'C04', 'C08'], ['SA-FIT.ce_block'],
   [(RR, "        if offset + length > self._max_block_size:\n            raise pycdlibexception.PyCdlibInvalidISO('No room in continuation block to track entry')\n", "")], 'track_entry')
-M('twin-ce-gap-rewritten', 'twin', ['C04', 'C08'], [],
+M('twin-ce-gap-rewritten', 'twin', ['C01', 'C02', 'C04', 'C08'], [],
   [(RR, "                lastend = lastentry.offset + lastentry.length - 1\n                gapsize = entry.offset - lastend - 1\n", "                lastend = lastentry.offset + lastentry.length - 1\n                gapsize = entry.offset - (lastentry.offset + lastentry.length)\n")])
 M('link-search-by-equality', 'fault', ['C02', 'C07', 'C16'], ['SA-IDENT'],
   [(PY, "                    link = reclink[0]\n                    if id(link) == id(rec):\n                        found_index = index\n                        break\n                else:\n                    # This should never happen.\n                    raise pycdlibexception.PyCdlibInternalError('Could not find inode corresponding to record')",
@@ -305,6 +305,13 @@ M('pn-length-constant-wrong', 'fault', ['C05', 'C08'], ['SA-LEN.susp'],
 M('twin-nm-record-as-join', 'twin', ['C05', 'C08'], [],
   [(RR, "        return b'NM' + struct.pack(self.FMT,\n                                   RRNMRecord.length(self.posix_name),\n                                   SU_ENTRY_VERSION,\n                                   self.posix_name_flags) + self.posix_name\n",
     "        head = struct.pack(self.FMT,\n                           RRNMRecord.length(self.posix_name),\n                           SU_ENTRY_VERSION,\n                           self.posix_name_flags)\n        return b''.join([b'NM', head, self.posix_name])\n")])
+
+M('coordinate-refresh-stops-early', 'fault', ['C02', 'C07', 'C17'], ['SA-COORD.refresh'],
+  [(DR, "            dirrecord_offset += dirrecord_len\n            c.extents_to_here = num_extents\n", "            dirrecord_offset += dirrecord_len\n            if c.extents_to_here == num_extents and c.offset_to_here == dirrecord_offset:\n                last = self.children[-1]\n                return last.extents_to_here, last.offset_to_here\n            c.extents_to_here = num_extents\n")], '_recalculate_extents_and_offsets')
+M('coordinate-refresh-index-conditional', 'fault', ['C02', 'C07', 'C17'], ['SA-COORD.refresh'],
+  [(DR, "            c.index_in_parent = i\n", "            if c.index_in_parent < 0:\n                c.index_in_parent = i\n")], '_recalculate_extents_and_offsets')
+M('twin-coordinate-refresh-enumerate', 'twin', ['C02', 'C07', 'C17'], [],
+  [(DR, "            c.offset_to_here = dirrecord_offset\n            c.index_in_parent = i\n", "            c.index_in_parent = i\n            c.offset_to_here = dirrecord_offset\n")])
 
 
 def applicable(m, sources):
